@@ -5,7 +5,7 @@ import time
 
 import numpy as np
 
-from .. import api, gen, resultcheck
+from .. import api, gen, resultcheck, planwork
 
 ID = "C20"
 LEVEL = "exploration"
@@ -30,7 +30,7 @@ JOBS = {"quick": 8, "thorough": 16}
 SHAPES = ["full", "full", "single", "uniformK", "allK1", "one-bin-band"]
 
 
-def shards(tier, seed):
+def _base_shards(tier, seed):
     if tier == "quick":
         n_sh, n, budget = 8, 40, 45
     else:
@@ -312,6 +312,10 @@ def one_case(rec, seedt):
 
 
 def run_shard(params, rec):
+    if params.get("kind") == "repo-tests":
+        # thorough tier: the repository's own tests as a workload, every result they produce
+        # checked by this property's result-level monitor (speckit_verif.pytest_plugin)
+        return planwork.run_repo_tests(ID, rec, tests=planwork.RESULT_TESTS)
     t0 = time.time()
     for i in range(params["n"]):
         if time.time() - t0 > params["budget_s"]:
@@ -322,3 +326,11 @@ def run_shard(params, rec):
 
 def replay(case, rec):
     one_case(rec, case["seed"])
+
+
+def shards(tier, seed):
+    out = list(_base_shards(tier, seed))
+    if tier == "thorough":
+        out.append({"name": "repo-tests", "threads": 4, "timeout": 2400,
+                    "params": {"kind": "repo-tests"}})
+    return out
